@@ -19,7 +19,7 @@ from ..core import Check, Graph, MachineryError, main
 from . import c14_rec as rec
 
 INVS = ["FlagDuring", "IntNormRestored", "InBounds", "Integral", "ImageOfUnit", "CountRule", "RejectRule",
-        "SeedRule", "Deterministic", "DbOrder", "CountLemma"]
+        "SeedRule", "Structure", "Deterministic", "DbOrder", "CountLemma"]
 TINVS = ["TFlagDuring", "TIntNormRestored", "TInBounds", "TIntegral", "TImageOfUnit", "TSeedRule", "TDeterministic"]
 ALLFAMS = ["exact", "exact2", "atmost", "diag", "fullfact", "axial", "factorial", "composite", "morris",
            "sobolidx", "bb", "cc", "ff2n", "pb", "custom", "oat"]
@@ -30,9 +30,9 @@ def tset(xs):
                            for x in xs) + "}"
 
 
-def cfg(*, space=1, g=8, insts=(1, 2), apis=("compute", "execute"), fams=("exact",), ns=(1,), ps=(0,),
+def cfg(*, space=(1,), g=8, insts=(1, 2), apis=("compute", "execute"), fams=("exact",), ns=(1,), ps=(0,),
         seeds=(1, 2), grid=(1, 4), injects=(False, True), mode="all", maxcalls=2, invs=INVS, trace=False):
-    s = (f"CONSTANTS G = {g}\n S = 8\n SpaceId = {space}\n Insts = {tset(insts)}\n Apis = {tset(apis)}\n"
+    s = (f"CONSTANTS G = {g}\n S = 8\n SpaceIds = {tset(space if isinstance(space, tuple) else (space,))}\n Insts = {tset(insts)}\n Apis = {tset(apis)}\n"
          f" Fams = {tset(fams)}\n Ns = {tset(ns)}\n Ps = {tset(ps)}\n Seeds = {tset(seeds)}\n"
          f" GridVals = {tset(grid)}\n Injects = {tset(injects)}\n UnitMode = \"{mode}\"\n MaxCalls = {maxcalls}\n")
     if trace:
@@ -79,34 +79,41 @@ def model_check(ck: Check):
     acts = ("DoBegin", "DoRefuse", "EarlyReject", "DoSample", "DoSampleFail", "DoFinish", "Raise", "Return")
     # (1) call histories: two instances, seeded / unseeded, compute / execute, refusals, sampler failures
     hist_spaces = (2, 3) if not ck.thorough else (1, 2, 3, 4)
-    for sp in hist_spaces:
-        r = ck.tlc("DOEPipeline", cfg(space=sp, fams=("exact", "diag", "morris"), ns=(1,), maxcalls=2),
-                   workers=4, timeout=600)
-        require(r, acts, f"history model, space {sp}")
+    r = ck.tlc("DOEPipeline", cfg(space=hist_spaces, fams=("exact", "diag", "morris"), ns=(1,), maxcalls=2),
+               workers=4, timeout=600)
+    require(r, acts, f"history model, spaces {hist_spaces}")
     if ck.thorough:
-        r = ck.tlc("DOEPipeline", cfg(space=2, fams=("exact", "diag", "morris"), ns=(1,), maxcalls=3, injects=(False,)),
+        for sp, mc in ((2, 4), (3, 3), (4, 3)):
+            r = ck.tlc("DOEPipeline", cfg(space=sp, fams=("exact", "diag", "morris"), ns=(1,), maxcalls=mc),
+                       workers=8, timeout=1500)
+            require(r, acts, f"history model, space {sp}, {mc} calls")
+        r = ck.tlc("DOEPipeline", cfg(space=2, fams=("diag", "axial"), ns=(1, 3), grid=(0, 4, 8), maxcalls=2, insts=(1,)),
                    workers=8, timeout=1500)
-        require(r, acts, "history model, 3 calls")
-        r = ck.tlc("DOEPipeline", cfg(space=2, fams=("diag", "axial"), ns=(1, 3), maxcalls=2, insts=(1,)),
-                   workers=8, timeout=1500)
-        require(r, acts, "history model, axial")
+        require(r, acts, "history model, diag/axial")
     # (2a) one call per instance (family, n, p) in dimensions 1-4: count lemmas, rejection and refusal rules
     nmax = 40 if ck.thorough else 17
-    for sp in (2, 3, 5, 6):
-        r = ck.tlc("DOEPipeline",
-                   cfg(space=sp, insts=(1,), apis=("compute", "execute"), fams=ALLFAMS, ns=tuple(range(0, nmax + 1)),
-                       ps=(0, 1, 2, 8), seeds=(1,), grid=(4,), injects=(False,), mode="const", maxcalls=1),
-                   workers=4, timeout=900)
-        require(r, ("DoBegin", "DoRefuse", "EarlyReject", "DoSample", "DoSampleFail", "DoFinish", "Raise"),
-                f"instance model, space {sp}")
+    r = ck.tlc("DOEPipeline",
+               cfg(space=(2, 3, 5, 6), insts=(1,), apis=("compute", "execute"), fams=ALLFAMS, ns=tuple(range(0, nmax + 1)),
+                   ps=(0, 1, 2, 8), seeds=(1,), grid=(4,), injects=(False,), mode="const", maxcalls=1),
+               workers=4 if not ck.thorough else 8, timeout=1200)
+    require(r, ("DoBegin", "DoRefuse", "EarlyReject", "DoSample", "DoSampleFail", "DoFinish", "Raise"), "instance model")
     # (2b) every unit grid point of every component of every space of the catalogue: image within bounds,
     #      integral, rounding (ties both ways), flag dependence
-    for sp in range(1, 7):
+    for spaces, mode in (((1, 2, 3, 4), "all"), ((5, 6), "const")):
         r = ck.tlc("DOEPipeline",
-                   cfg(space=sp, insts=(1,), apis=("compute", "execute"), fams=("exact",), ns=(1,), seeds=(1,),
-                       grid=tuple(range(0, 9)), injects=(False,), mode="all" if sp <= 4 else "const", maxcalls=1),
+                   cfg(space=spaces, insts=(1,), apis=("compute", "execute"), fams=("exact",), ns=(1,), seeds=(1,),
+                       grid=tuple(range(0, 9)), injects=(False,), mode=mode, maxcalls=1),
                    workers=4, timeout=900)
-        require(r, ("DoBegin", "DoSample", "DoFinish"), f"image model, space {sp}")
+        require(r, ("DoBegin", "DoSample", "DoFinish"), f"image model, spaces {spaces}")
+    # (2c) the structured designs built by gemseo's own wrapper code: TLC searches ALL matrices over the grid
+    #      for those the structure rules admit (non-vacuity of the rules) and checks the pipeline on them
+    struct = [(2, (2, 3, 5), (0, 2, 4, 6, 8), ("diag", "fullfact", "axial", "factorial", "composite"))]
+    if ck.thorough:
+        struct.append((3, (4, 5), (0, 4, 8), ("fullfact", "axial", "factorial")))
+    for sp, ns, grid, fams in struct:
+        r = ck.tlc("DOEPipeline", cfg(space=sp, insts=(1,), apis=("compute",), fams=fams, ns=ns, seeds=(1,), grid=grid,
+                                      injects=(False,), mode="all", maxcalls=1), workers=4, timeout=900)
+        require(r, ("DoBegin", "DoSample", "DoFinish"), f"structure model, space {sp}")
     # (3) outside the quantifier: TLC refutes "at most n" for the Sobol'-indices design (d = 1, second order)
     r = ck.tlc("DOEPipeline",
                cfg(space=1, insts=(1,), apis=("compute",), fams=("sobolidx",), ns=tuple(range(1, 13)), ps=(0, 1),
@@ -191,9 +198,7 @@ def scenarios(ck: Check, rng, hs):
 
 def run(ck: Check):
     rng = random.Random(ck.seed)
-    import os
-    if not os.environ.get("C14_DEV_SKIP_MC"):
-        model_check(ck)
+    model_check(ck)
     hs = histories(ck, 3 if ck.thorough else 2)
     rng.shuffle(hs)
     scs = scenarios(ck, rng, hs)
@@ -258,7 +263,7 @@ def validate(ck: Check, traces, meta):
                     obs[clause][sc["algo"]] += 1
                     continue
                 clean = False
-                sig = {"family": call["fam"], "api": call["api"], "event": e["ev"],
+                sig = {"family": call["fam"], "p": call["p"], "api": call["api"], "event": e["ev"],
                        "outcome": ("ok" if e.get("ok") else "raise") if e["ev"] == "end" else "na"}
                 if e["ev"] == "end" and not e.get("ok"):
                     sig["stage"] = evs[l - 2]["ev"]
@@ -271,6 +276,15 @@ def validate(ck: Check, traces, meta):
             t = chunk[0]
             ck.sample({"algo": meta[t["id"]]["algo"], "space": meta[t["id"]]["space"], "n": meta[t["id"]]["n"],
                        "events": [_short(e) for e in t["events"][:6]]})
+    grid_calls: dict[str, list[int]] = {}
+    for t in traces:
+        fam = rec.ALGOS[meta[t["id"]]["algo"]]["fam"]
+        for e in t["events"]:
+            if e["ev"] == "sample":
+                g = grid_calls.setdefault(fam, [0, 0])
+                g[0] += 1
+                g[1] += 1 if e["ugrid"] else 0
+    ck.extra["sampled_calls_by_family[total,on_grid]"] = grid_calls
     ck.extra["scenarios"] = len(traces)
     ck.extra["calls_recorded"] = n_calls
     ck.extra["algorithms"] = sorted({meta[t["id"]]["algo"] for t in traces})
